@@ -61,6 +61,8 @@ var c08Corpus = []string{
 	`2 + 3 * 4 == 14`, `"con" + "cat" == "concat"`, `(1..5)[2]`, `A not in [10, 20] and S not in ["zz"]`,
 	// folded sequences handed to a function that changes its argument in place
 	`RevInts(1..5)`, `RevInts([3, 1, 2])[0]`, `RevInts(1..4) == [4, 3, 2, 1]`,
+	// ... after an open-ended slice of the folded sequence, which measures it first
+	`RevInts((1..6)[2:])`, `RevInts([7, 8, 9, 10][:])[0]`, `RevInts((1..5)[1:]) == [5, 4, 3, 2]`, `len(RevInts((1..9)[:4])) + RevInts((1..9)[:4])[0]`,
 }
 
 type c08Prog struct {
